@@ -12,11 +12,16 @@ import (
 
 // Plan is plain data: one plan = one exactly repeatable execution.
 type Plan struct {
-	Prop     string    `json:"prop"`
-	BaseSec  int64     `json:"base_sec"`  // verifier wall clock at simulated time 0
-	BaseNsec int64     `json:"base_nsec"` //
-	Accounts []Account `json:"accounts"`
-	Events   []Event   `json:"events"`
+	Prop       string    `json:"prop"`
+	Fresh      bool      `json:"fresh,omitempty"`       // every library call gets freshly allocated copies of its strings
+	GCBefore   []int     `json:"gc_before,omitempty"`   // a garbage collection right before these library calls (call indices of the run)
+	GCInCall   [][2]int  `json:"gc_in_call,omitempty"`  // (call index, statement): a collection + finalizers inside that call
+	InnerSched uint64    `json:"inner_sched,omitempty"` // seed of the per-call goroutine schedules (used only when the library starts goroutines itself)
+	MonoMode   int       `json:"mono_mode,omitempty"`   // 0 consistent monotonic readings; 1 constant reading; 2 reading running backwards
+	BaseSec    int64     `json:"base_sec"`              // verifier wall clock at simulated time 0
+	BaseNsec   int64     `json:"base_nsec"`             //
+	Accounts   []Account `json:"accounts"`
+	Events     []Event   `json:"events"`
 }
 
 type Account struct {
@@ -588,6 +593,23 @@ func genArbitrary(t *rapid.T) string {
 // GenPlan draws a whole plan for the given property.
 func GenPlan(t *rapid.T, prop string) *Plan {
 	p := &Plan{Prop: prop}
+	// environment faults: memory reuse (fresh strings + collections), collections and
+	// finalizers inside a call, monotonic readings that disagree with the wall clock
+	p.Fresh = rapid.Bool().Draw(t, "fresh")
+	if weighted(t, "gc?", 3, 1) == 1 {
+		n := rapid.IntRange(1, 3).Draw(t, "nGC")
+		for i := 0; i < n; i++ {
+			p.GCBefore = append(p.GCBefore, rapid.IntRange(1, 120).Draw(t, "gcBefore"))
+		}
+	}
+	if weighted(t, "gcInCall?", 5, 1) == 1 {
+		n := rapid.IntRange(1, 2).Draw(t, "nGCInCall")
+		for i := 0; i < n; i++ {
+			p.GCInCall = append(p.GCInCall, [2]int{rapid.IntRange(1, 80).Draw(t, "gcCall"), rapid.IntRange(1, 160).Draw(t, "gcStmt")})
+		}
+	}
+	p.MonoMode = weighted(t, "monoMode", 4, 1, 1)
+	p.InnerSched = rapid.Uint64().Draw(t, "innerSched")
 	fn := rapid.SampledFrom([]int{10, 20, 32, 64, 65, 80, 128, 200}).Draw(t, "familyLen")
 	family = rapid.SliceOfN(rapid.Byte(), fn, fn).Draw(t, "family")
 	p.BaseSec, p.BaseNsec = genBase(t)
